@@ -6,8 +6,8 @@
     targets must treat exactly that universe
  R2 unique ids: remove_duplicate_tids records the tid of every term level in one set and
     drops / aborts on a duplicate; cloning re-suffixes block, def and jmp tids
- R3 pass order in normalize_basic: all five passes run unconditionally and the three
-    necessary orderings hold
+ R3 pass order in normalize_basic: all five passes run unconditionally and the four
+    necessary orderings hold (each with its reason in the rule table)
  R4 non-returning calls return to the artificial sink of the enclosing function, and the
     sink block is added when a call was retargeted
 """
@@ -205,6 +205,13 @@ def run(run):
                            ("add_artifical_sink", "retargeted references point at the global sink block, which must exist to be duplicated into the function"),
                            ("remove_references_to_nonexisting_tids", "the duplication pass looks up every reachable target and fails on a dangling one")):
                 run.check("R3", "order|%s<make_block_to_sub_mapping_unique" % a, pos[a] < pos["make_block_to_sub_mapping_unique"], "%s must run before make_block_to_sub_mapping_unique (%s)" % (a, why), F.loc(fn["body"]))
+            # the retarget pass states its precondition itself ("INVARIANT: A unique block-to-sub mapping is preserved"): it adds a
+            # per-function sink block `artificial_sink_block(sub suffix)`; the duplication pass gives exactly that tid to its clone of the
+            # global sink block, so a function with a dangling jump AND a non-returning call would get the same block tid twice
+            run.check("R3", "order|make_block_to_sub_mapping_unique<retarget_non_returning_calls_to_artificial_sink",
+                      pos["make_block_to_sub_mapping_unique"] < pos["retarget_non_returning_calls_to_artificial_sink"],
+                      "make_block_to_sub_mapping_unique must run before retarget_non_returning_calls_to_artificial_sink: the retarget pass adds the per-function block `Artificial Sink Block_<sub>`, "
+                      "and a later duplication pass clones the global sink block (target of repaired dangling jumps) into the same function under the identical tid -> duplicate tids", F.loc(fn["body"]))
 
     run.guarded("R3", r3)
 
